@@ -493,10 +493,24 @@ impl WorkerTree {
         resources: &Resources,
         location: &Path,
     ) -> DarkluaResult<()> {
-        if self.output_structure.is_some()
-            || !resources.exists(location)?
-            || !resources.is_directory(location)?
-        {
+        if self.output_structure.is_some() {
+            return Ok(());
+        }
+
+        if !resources.exists(location)? {
+            // the output location will be created by darklua: only its parent folders
+            // that are already there have to be preserved when cleaning up
+            let mut structure = HashMap::new();
+            for ancestor in location.ancestors().skip(1) {
+                if ancestor.components().count() != 0 && resources.exists(ancestor)? {
+                    structure.insert(ancestor.to_path_buf(), false);
+                }
+            }
+            self.output_structure = Some(structure);
+            return Ok(());
+        }
+
+        if !resources.is_directory(location)? {
             return Ok(());
         }
 
